@@ -28,6 +28,7 @@ struct Scalar {
   Val v;          // model value of the scalar
   int ctype = 0;  // which C++ type carries an integer
   int skind = 0;  // string source kind (see StrKind)
+  bool assign = false;  // use operator= instead of set() where the target type has one
 };
 
 enum StrKind { SK_STD = 0, SK_VIEW, SK_JSTR_COPIED, SK_LINKED, SK_CHARPTR, SK_JSTR_LINKED, SK_CHARARR, SK_COUNT, SK_ARDUINO_STRING = 7, SK_FLASH = 8 };
@@ -187,37 +188,49 @@ void with_path(Base&& base, const std::vector<Step>& path, F&& f) {
   else step2(base[path[0].key]);
 }
 
+// `target = value` when the target type offers it (proxies, JsonDocument), else target.set(value)
+template <typename T, typename V>
+auto assign_or_set(T&& t, V&& v, int) -> decltype((t = v), bool()) {
+  t = v;
+  return true;
+}
+template <typename T, typename V>
+bool assign_or_set(T&& t, V&& v, long) {
+  return t.set(v);
+}
+#define LIB_SET(X) (sc.assign ? assign_or_set(target, X, 0) : target.set(X))
+
 // set a scalar on any target (JsonVariant, proxy, ...); returns the library's return value
 template <typename T>
 bool lib_set(T&& target, const Scalar& sc, World& w) {
   switch (sc.k) {
-    case Scalar::NUL: return target.set(nullptr);
-    case Scalar::BOOL: return target.set(sc.v.b);
+    case Scalar::NUL: return LIB_SET(nullptr);
+    case Scalar::BOOL: return LIB_SET(sc.v.b);
     case Scalar::INT: {
       const Val& v = sc.v;
       if (v.neg) {
         int64_t x = v.as_i64();
         switch (sc.ctype % 4) {
-          case 1: if (x >= INT32_MIN) return target.set((int32_t)x); break;
-          case 2: if (x >= INT16_MIN) return target.set((int16_t)x); break;
-          case 3: if (x >= INT8_MIN) return target.set((signed char)x); break;
+          case 1: if (x >= INT32_MIN) return LIB_SET((int32_t)x); break;
+          case 2: if (x >= INT16_MIN) return LIB_SET((int16_t)x); break;
+          case 3: if (x >= INT8_MIN) return LIB_SET((signed char)x); break;
         }
-        return target.set(x);
+        return LIB_SET(x);
       }
       uint64_t x = v.mag;
       switch (sc.ctype % 8) {
-        case 1: if (x <= INT64_MAX) return target.set((int64_t)x); break;
-        case 2: if (x <= UINT32_MAX) return target.set((uint32_t)x); break;
-        case 3: if (x <= INT32_MAX) return target.set((int32_t)x); break;
-        case 4: if (x <= UINT16_MAX) return target.set((uint16_t)x); break;
-        case 5: if (x <= INT16_MAX) return target.set((short)x); break;
-        case 6: if (x <= UINT8_MAX) return target.set((unsigned char)x); break;
-        case 7: if (x <= INT64_MAX) return target.set((long long)x); break;
+        case 1: if (x <= INT64_MAX) return LIB_SET((int64_t)x); break;
+        case 2: if (x <= UINT32_MAX) return LIB_SET((uint32_t)x); break;
+        case 3: if (x <= INT32_MAX) return LIB_SET((int32_t)x); break;
+        case 4: if (x <= UINT16_MAX) return LIB_SET((uint16_t)x); break;
+        case 5: if (x <= INT16_MAX) return LIB_SET((short)x); break;
+        case 6: if (x <= UINT8_MAX) return LIB_SET((unsigned char)x); break;
+        case 7: if (x <= INT64_MAX) return LIB_SET((long long)x); break;
       }
-      return target.set(x);
+      return LIB_SET(x);
     }
-    case Scalar::FLT32: return target.set((float)sc.v.d);
-    case Scalar::FLT64: return target.set(sc.v.d);
+    case Scalar::FLT32: return LIB_SET((float)sc.v.d);
+    case Scalar::FLT64: return LIB_SET(sc.v.d);
     case Scalar::STR: {
       const std::string& str = sc.v.s;
       int kind = w.policy >= 0 ? w.policy : sc.skind;
@@ -225,34 +238,34 @@ bool lib_set(T&& target, const Scalar& sc, World& w) {
       switch (kind) {
         case SK_STD: {
           std::string tmp = str;
-          bool r = target.set(tmp);
+          bool r = LIB_SET(tmp);
           for (auto& c : tmp) c = '#';
           return r;
         }
         case SK_VIEW: {
           std::string tmp = str;
-          bool r = target.set(std::string_view(tmp));
+          bool r = LIB_SET(std::string_view(tmp));
           for (auto& c : tmp) c = '#';
           return r;
         }
         case SK_JSTR_COPIED: {
           std::string tmp = str;
-          bool r = target.set(JsonString(tmp.data(), tmp.size(), JsonString::Copied));
+          bool r = LIB_SET(JsonString(tmp.data(), tmp.size(), JsonString::Copied));
           for (auto& c : tmp) c = '#';
           return r;
         }
-        case SK_LINKED: return target.set(w.arena.keep(str));
+        case SK_LINKED: return LIB_SET(w.arena.keep(str));
         case SK_CHARPTR: {
           std::string tmp = str;
-          bool r = target.set(const_cast<char*>(tmp.c_str()));
+          bool r = LIB_SET(const_cast<char*>(tmp.c_str()));
           for (auto& c : tmp) c = '#';
           return r;
         }
-        case SK_JSTR_LINKED: return target.set(JsonString(w.arena.keep(str), JsonString::Linked));
+        case SK_JSTR_LINKED: return LIB_SET(JsonString(w.arena.keep(str), JsonString::Linked));
 #if ARDUINOJSON_ENABLE_ARDUINO_STRING
         case SK_ARDUINO_STRING: {
           ::String tmp(str.c_str());
-          bool r = target.set(tmp);
+          bool r = LIB_SET(tmp);
           tmp = "################";
           return r;
         }
@@ -260,7 +273,7 @@ bool lib_set(T&& target, const Scalar& sc, World& w) {
 #if ARDUINOJSON_ENABLE_PROGMEM
         case SK_FLASH: {
           std::string tmp = str;
-          bool r = target.set(reinterpret_cast<const __FlashStringHelper*>(tmp.c_str() + 42));
+          bool r = LIB_SET(reinterpret_cast<const __FlashStringHelper*>(tmp.c_str() + 42));
           for (auto& c : tmp) c = '#';
           return r;
         }
@@ -269,20 +282,20 @@ bool lib_set(T&& target, const Scalar& sc, World& w) {
           char buf[64];
           if (str.size() >= sizeof buf) {
             std::string tmp = str;
-            return target.set(tmp);
+            return LIB_SET(tmp);
           }
           memcpy(buf, str.c_str(), str.size() + 1);
-          bool r = target.set(buf);
+          bool r = LIB_SET(buf);
           memset(buf, '#', sizeof buf);
           return r;
         }
       }
     }
-    case Scalar::RAW: return target.set(serialized(sc.v.s));
+    case Scalar::RAW: return LIB_SET(serialized(sc.v.s));
     case Scalar::BIN: {
       // sc.v is a Raw holding the bin8 encoding; give the payload through MsgPackBinary
       const std::string& r = sc.v.s;
-      return target.set(MsgPackBinary(r.data() + 2, r.size() - 2));
+      return LIB_SET(MsgPackBinary(r.data() + 2, r.size() - 2));
     }
   }
   return false;
@@ -357,6 +370,7 @@ bool lib_add(T&& target, const Scalar& sc, World& w) {
 // ------------------------------------------------------------------------------ generator pieces
 inline Scalar gen_scalar(Src& s, const Options& opt) {
   Scalar sc;
+  sc.assign = !opt.reduced_alphabet && s.chance(1, 3);
   static const unsigned w[] = {2, 2, 5, 2, 3, 6, 1, 1};
   static const unsigned wstr[] = {1, 1, 2, 0, 1, 12, 1, 0};
   unsigned c = (unsigned)(opt.string_ops_only ? s.pick(wstr) : s.pick(w));
